@@ -21,7 +21,7 @@
 (*    a           projection (a): plain XML reader   (drivers/dump2nd.py,   *)
 (*    b           projection (b): cppcheckdata.py     see there for fields) *)
 (*    hasA/hasB   FALSE when that projection has no such configuration      *)
-(* Output IOEnv.OUT : ndjson of [name, cfg, bad (names of the violated      *)
+(* Output IOEnv.OUT : ndjson of [name, bad (names of the violated           *)
 (*    invariants), why (a few witnesses)] for every line with a violation.  *)
 (*                                                                         *)
 (* Python only converts XML / Python objects into these records; every     *)
@@ -176,6 +176,10 @@ Judge(a) ==
 (* exactly the graph of the file (projection a): same elements in the same *)
 (* order, and every reference the library models points to the object of   *)
 (* the right class whose id is the id written in the file.                  *)
+(* The library has no objects for <types> / <derivedFrom> and containers   *)
+(* of a token's value type, keeps Scope.definedType as a plain string and   *)
+(* turns Function.overriddenFunction into a boolean: those references are   *)
+(* judged on the file only (RefsResolve), not here.                         *)
 (***************************************************************************)
 Ref(class, x) == IF Null(x) THEN "" ELSE class \o ":" \o x
 
